@@ -10,12 +10,27 @@ class ToolError(Exception):
     pass
 
 
+_SPEC_DIGEST = []
+
+
 def spec_digest():
+    if _SPEC_DIGEST:            # (the specification does not change while a check runs)
+        return _SPEC_DIGEST[0]
+    _SPEC_DIGEST.append(_spec_digest())
+    return _SPEC_DIGEST[0]
+
+
+def _spec_digest():
     h = hashlib.sha256()
     for f in sorted(os.listdir(SPEC)):
         if f.endswith((".tla", ".cfg")):
             h.update(f.encode())
             h.update(open(os.path.join(SPEC, f), "rb").read())
+    pd = os.path.join(SPEC, "proofs")
+    for f in sorted(os.listdir(pd)) if os.path.isdir(pd) else []:
+        if f.endswith(".tla"):
+            h.update(b"proofs/" + f.encode())
+            h.update(open(os.path.join(pd, f), "rb").read())
     return h.hexdigest()[:16]
 
 
